@@ -294,6 +294,24 @@ def _frozen_value_decoders(repo: Repo, rep: Report) -> int:
             elif sa == "neg" and sb == "pos" and same_tgt:
                 rep.violation("FROZEN-VALUE", ig, f"BP init: frozen_zeros -> {unparse(a[0].value)}, else {unparse(b[0].value)}", "a frozen 0 is initialised with a negative LLR (bit 1): polarity inverted relative to the library convention and the encoder")
                 done = True
+    # the frozen positions are selected by a MASK: the attribute used in `R[:, 0, self.frozen_ind]` must be boolean-typed - a
+    # 0/1 integer tensor in the same place is a list of positions (0 and 1), and the frozen prior lands on those two only
+    binit = repo.func(PBP, "BeliefPropagationPolarDecoder.__init__")
+    fdefs = [s_ for s_ in ast.walk(binit.node) if isinstance(s_, ast.Assign) and any(attr_chain(t_) == "self.frozen_ind" for t_ in s_.targets)]
+    uses_mask = any(isinstance(x_, ast.Subscript) and any(isinstance(y_, ast.Attribute) and attr_chain(y_) == "self.frozen_ind" for y_ in ast.walk(x_.slice)) for x_ in ast.walk(ig.node))
+    if uses_mask and len(fdefs) == 1:
+        e_ = fdefs[0].value
+        while isinstance(e_, ast.Call) and isinstance(e_.func, ast.Attribute) and e_.func.attr in ("to", "clone", "detach", "cpu", "cuda", "contiguous", "view", "reshape", "flatten") and not (e_.func.attr == "to" and any("torch.bool" in unparse(a_) for a_ in list(e_.args) + [k_.value for k_ in e_.keywords])):
+            e_ = e_.func.value
+        is_bool = (isinstance(e_, ast.Call) and isinstance(e_.func, ast.Attribute) and (e_.func.attr in ("bool", "logical_not", "logical_and", "logical_or", "eq", "ne", "lt", "gt", "le", "ge", "isin") or (e_.func.attr == "to" and "torch.bool" in unparse(e_)))) or isinstance(e_, ast.Compare) or (isinstance(e_, ast.UnaryOp) and isinstance(e_.op, ast.Invert)) or (isinstance(e_, ast.Call) and (call_name(e_) or "") in ("torch.logical_not", "torch.logical_and", "torch.logical_or", "torch.isin", "torch.eq", "torch.ne"))
+        is_int = (isinstance(e_, ast.BinOp) and isinstance(e_.op, (ast.Sub, ast.Add, ast.Mult))) or (isinstance(e_, ast.Call) and isinstance(e_.func, ast.Attribute) and e_.func.attr in ("int", "long", "float", "double"))
+        what_ = f"BP init: self.frozen_ind = {unparse(fdefs[0].value)[:70]} is used as a mask"
+        if is_bool:
+            rep.ok("FROZEN-VALUE", binit, what_, "boolean-typed: `R[:, 0, self.frozen_ind]` selects exactly the frozen positions", node=fdefs[0], nontrivial=False)
+        elif is_int:
+            rep.violation("FROZEN-VALUE", binit, "BP init: the frozen-position selector is a 0/1 number tensor, not a mask", f"`{unparse(fdefs[0])[:90]}` is integer / float typed, so `R[:, 0, self.frozen_ind] = ...` in _initialize_graph is an index store: the frozen prior is written to positions 0 and 1 (the values of the tensor) instead of to the frozen positions - an information bit at position 0 or 1 is overwritten, the other frozen bits get no prior", node=fdefs[0])
+        else:
+            rep.undecided("FROZEN-VALUE", binit, what_, "dtype of the selector not derived", node=fdefs[0])
     if not done:
         # the same choice as a conditional expression: R[:, 0, frozen] = A if self.frozen_zeros else B (or the negated test)
         for s_ in stmts_of(ig.body):
